@@ -227,7 +227,11 @@ def rule_r4(prog, res) -> None:
         n += 1
         res.touch(m)
         its = [g.iter for x in walk_no_nested(m.node) if isinstance(x, (ast.GeneratorExp, ast.ListComp)) for g in x.generators]
-        if its and all(unparse(i) == "self.values()" for i in its):
+        def _ordered_source(i) -> bool:
+            t = unparse(i).replace(" ", "")
+            return t in ("self.values()", "self.items()", "self.keys()", "self") or t.startswith("sorted(")
+
+        if its and all(_ordered_source(i) for i in its):
             res.ok("C12.R4", res.site(m), "iterates self.values() (sorted patch ids)")
         else:
             res.violation("C12.R4", m, m.node, f"Catalog.{name} does not enumerate the patches through self.values(): per-patch arrays of different getters may be ordered differently", key_extra=f"{name}-order")
